@@ -108,3 +108,4 @@ UNITS = [
            "['-- Interacting with table ' + ground.table_name])"],
        spec_calls={'Engine': 'Annotations.Engine!ext'}),
 ]
+
